@@ -54,19 +54,44 @@ func c04RulesKey(rules []c04Rule) string {
 	return strings.Join(s, " ; ")
 }
 
+// c04MatcherClass: class of one header matcher for finding keys: which special
+// name it carries (the legacy fast-match key `service`, the variable-backed
+// `method` of HTTP rules, any other header) and - for the first matcher of a
+// rule, the one the legacy fast path looks at - the form of its value.
+func c04MatcherClass(http bool, h c04Hdr, detail bool) string {
+	n := "header"
+	switch {
+	case h.Name == types.RPCRouteMatchKey:
+		n = "service"
+	case http && h.Name == "method":
+		n = "method"
+	}
+	if !detail {
+		return n
+	}
+	switch {
+	case h.Regex && h.Value == ".*":
+		return n + "~.*"
+	case h.Regex:
+		return n + "~regex"
+	case h.Value == ".*":
+		return n + "=.*"
+	}
+	return n + "=exact"
+}
+
+// c04RuleClass: kind of the rule and the shape of its header matcher list
+// (number, order, special names) - never concrete values.
 func c04RuleClass(r c04Rule) string {
 	s := r.Kind
-	for _, h := range r.Headers {
-		switch {
-		case h.Name == "method" && r.Kind != "rpc":
-			s += "+method"
-		case h.Regex:
-			s += "+header-regex"
-		default:
-			s += "+header"
-		}
+	if len(r.Headers) == 0 {
+		return s
 	}
-	return s
+	var ms []string
+	for i, h := range r.Headers {
+		ms = append(ms, c04MatcherClass(r.Kind != "rpc", h, i == 0))
+	}
+	return s + "[" + strings.Join(ms, ",") + "]"
 }
 
 func TestVerifC04Routes(t *testing.T) {
@@ -78,7 +103,7 @@ func TestVerifC04Routes(t *testing.T) {
 		func(yield func(c04RouteCase) bool) {
 			c04GenRuleLists(c04Rules, maxLen, func(rs []c04Rule) bool { return yield(c04RouteCase{Rules: rs}) })
 		},
-		func(p *vreport.Part, c c04RouteCase) { c04CheckRoutes(p, c, reqs) })
+		func(p *vreport.Part, c c04RouteCase) { c04CheckRoutes(p, c, reqs, false) })
 	var names []string
 	for _, r := range c04Rules {
 		names = append(names, r.String())
@@ -88,7 +113,9 @@ func TestVerifC04Routes(t *testing.T) {
 		"cartesian product; MatchRoute must return the first rule in configuration order that holds, 'no route' only if none holds; MatchAllRoutes must return exactly the rules that hold, in configuration order; rules whose verdict the statement does not decide (path/prefix differing from the probe only by letter case; legacy `service: .*` against a present header) are enumerated but admit either verdict; distinct = (rule list, vector of reference verdicts); outcome = position selected / number of rules")
 }
 
-func c04CheckRoutes(p *vreport.Part, c c04RouteCase, reqs []c04Req) {
+// coarse: the distinct key uses the rule classes instead of the concrete rules
+// (for parts whose number of lookups is too large to remember each).
+func c04CheckRoutes(p *vreport.Part, c c04RouteCase, reqs []c04Req, coarse bool) {
 	cfg := c04VHostConfig([][]string{{"*"}}, func(int) []v2.Router {
 		var out []v2.Router
 		for k, r := range c.Rules {
@@ -107,6 +134,13 @@ func c04CheckRoutes(p *vreport.Part, c c04RouteCase, reqs []c04Req) {
 		p.EvalN(len(reqs) - 1)
 	}
 	lkey := c04RulesKey(c.Rules)
+	dkey := lkey
+	if coarse {
+		dkey = ""
+		for _, r := range c.Rules {
+			dkey += c04RuleClass(r) + ";"
+		}
+	}
 	for _, q := range reqs {
 		q := q
 		cc := c04RouteCase{Rules: c.Rules, Req: &q}
@@ -120,7 +154,7 @@ func c04CheckRoutes(p *vreport.Part, c c04RouteCase, reqs []c04Req) {
 		if got != "" {
 			fmt.Sscanf(got, "r%d", &gotIdx)
 		}
-		p.Distinct(lkey + "|" + fmt.Sprint(verdict))
+		p.Distinct(dkey + "|" + fmt.Sprint(verdict))
 		p.Outcome(fmt.Sprintf("%d/%d decided=%v", gotIdx, len(c.Rules), len(adm) == 1))
 		if len(adm) > 1 {
 			p.Count("lookups_not_fully_decided_by_statement", 1)
